@@ -245,6 +245,15 @@ from pydra.compose import python, workflow
 """
 
 
+def private_hash_cache(ctx):
+    """pydra's persistent file-hash cache lives in a per-user directory that every Submitter run scans
+    completely (PersistentCache.clean_up); on a shared machine it holds tens of thousands of entries.  The
+    documented variable PYDRA_HASH_CACHE moves it into the scratch directory of this run."""
+    d = ctx.scratch / "hashcache"
+    d.mkdir(exist_ok=True)
+    os.environ["PYDRA_HASH_CACHE"] = str(d)
+
+
 BASE = None  # set by the driver to ctx.scratch before the fork pool starts
 
 
